@@ -912,11 +912,15 @@ def run_scenario(case, chk):
             if v[0] is None:
                 try:
                     sut.ch.set_num_antennas(None, None)
+                    back = (sut.ch.num_rx_antennas, sut.ch.num_tx_antennas)
+                    problem = None if back == (-1, -1) else "no exception, but num_rx/num_tx_antennas = %r" % (back,)
                 except TypeError as e:
-                    chk.fail(("set_num_antennas", "None_None", "documented_SISO_reset_raises"), case,
-                             observed="%s: %s" % (type(e).__name__, e),
+                    problem = "%s: %s" % (type(e).__name__, e)
+                if problem is not None:
+                    chk.fail(("set_num_antennas", "None_None", "documented_SISO_reset_fails"), case,
+                             observed=problem,
                              expected="documented: 'Set both `num_rx_antennas` and `num_tx_antennas` to None "
-                                      "for SISO transmission'")
+                                      "for SISO transmission' (num_rx/num_tx_antennas = -1 afterwards)")
                     chk.count("scenarios_cut_short_by_a_reported_defect")
                     break
                 sut.ant, sut.mimo = None, False
@@ -1019,7 +1023,7 @@ def time_inputs(streams, n):
 def fam_time(tier):
     profs = subset_profiles() + variant_profiles()
     for Ts in TS_ALL:
-        plist = profs if (Ts == 1.0 or tier == "thorough") else variant_profiles() + subset_profiles()[::3]
+        plist = profs if (Ts == 1.0 or tier == "thorough") else variant_profiles()
         for prof in plist:
             for ant in ANTS:
                 for sw in (False, True):
@@ -1077,7 +1081,7 @@ def fam_time_pairs(tier):
 
 
 def fam_freq(tier):
-    combos = [(GENS[0], P_FLAT), (GENS[0], P_MIX), (GENS[2], P_013), (GENS[1], P_12)]
+    combos = [(GENS[0], P_MIX), (GENS[2], P_013), (GENS[1], P_FLAT)]
     if tier == "thorough":
         combos = [(g, p) for g in GENS for p in (P_FLAT, P_013, P_MIX, P_12)]
     for fft in (4, 5, 8, 12):
@@ -1132,7 +1136,7 @@ def fam_hist(tier):
             hist = [dict(alpha[i]) for i in seq]
             for (w, ant, N, pl) in wrapper_configs():
                 for sw in (False, True):
-                    for gen in GENS:
+                    for gen in (GENS if (depth < 3 or tier == "thorough") else GENS[:1]):
                         for prof in ((P_MIX, P_12) if tier == "thorough" else (P_MIX,)):
                             yield scen("hist", w, prof, 1.0 if gen[0] != "jakes" or gen[1] == 0.0 else 1e-3, gen,
                                        with_initial_pathloss(pl, hist), ant=ant, N=N, switched=sw)
@@ -1154,7 +1158,7 @@ def fam_ploss(tier):
                     if w.startswith("tdl"):
                         continue
                     for sw in (False, True):
-                        for gen in GENS:
+                        for gen in (GENS if tier == "thorough" else (GENS[0], GENS[2])):
                             yield scen("ploss", w, P_013, 1.0, gen, hist, ant=ant, N=N, switched=sw)
 
 
@@ -1383,13 +1387,14 @@ def main(chk: Check):
                               % (C_TOL, POW_RTOL))
     tier = chk.tier
 
+    all_t = list(t_cases(tier))          # built once; the forked workers share it
+
     def worker(i, n, c):
         for k, case in enumerate(itertools.chain(d_cases(tier), d_cases_scale(tier))):
             if k % n == i:
                 run_case(case, c)
-        for k, case in enumerate(t_cases(tier)):
-            if k % n == i:
-                run_case(case, c)
+        for case in all_t[i::n]:
+            run_case(case, c)
 
     run_shards(chk, worker)
     chk.sample({"part": "D", "q": [6, 2, 10], "p": [0.0, -3.0, -10.0], "Ts": 1.0})
